@@ -39,7 +39,12 @@ def safe_run(P, c):
 def safe_spec(P, c, out):
     if isinstance(out, dict) and "unexpected-exception" in out:
         return f"real code raised unexpectedly: {out['unexpected-exception']}"
-    return P.spec_violation(c, out)
+    try:
+        return P.spec_violation(c, out)
+    except Exception as e:  # noqa
+        # the result has a form the oracle did not anticipate (a missing field, another shape): it cannot be shown to satisfy
+        # the property, and the case is the replay
+        return f"the oracle could not interpret the result of the real code ({type(e).__name__}: {e}): {json.dumps(out, default=str)[:200]}"
 
 
 def safe_agree(P, c, code, model):
